@@ -191,6 +191,10 @@ def Pep.earlyUpper (s : Bytes) : Bool :=
   let t := match s with | 118 :: r => r | 86 :: r => r | _ => s
   (t.take 3).any isUpperB
 
+/-- (PyPI, on spellings) a leading `v` and an epoch mark `!`. -/
+def Pep.vEpoch (s : Bytes) : Bool :=
+  (match s with | 118 :: _ => true | 86 :: _ => true | _ => false) && s.contains 33
+
 def Gem.inLib (a : Gem.Ast) : Bool :=
   a.segs.all (fun | .num n => decide (n < 2 ^ 63 - 1) | .str _ => true)
 
